@@ -339,7 +339,7 @@ func TestC05Walk(t *testing.T) {
 // ---------------------------------------------------------------- C06
 
 func genHold(t *rapid.T) WalkCase {
-	c := genWalkWith(t, sm.SpecOpts{Deterministic: true, NativeToo: true, InPlace: true, Scribble: true, ArrayVar: true, Fail: 5, GuardFail: 3, Emit: true, UserErrorNode: true, Lively: rapid.Bool().Draw(t, "lively")})
+	c := genWalkWith(t, sm.SpecOpts{Deterministic: true, NativeToo: true, InPlace: true, Scribble: true, ArrayVar: true, Fail: 5, GuardFail: 3, Emit: true, UserErrorNode: true, PropsWrite: true, Lively: rapid.Bool().Draw(t, "lively")})
 	c.UseStep = rapid.IntRange(0, 2).Draw(t, "useStep") == 0
 	c.Cuts = nil
 	if rapid.IntRange(0, 5).Draw(t, "inf") == 0 {
@@ -429,7 +429,11 @@ func checkHold(c WalkCase) (v ev.Verdict) {
 		v.Class("unserialisable-binding")
 	}
 	msgs := copyMsgs(c.Messages)
-	props := core.StepProps{"p": map[string]interface{}{"nested": []interface{}{1.0, 2.0}}, "q": "s"}
+	// step properties, with one map reachable by several paths (a host
+	// that puts the same configuration under two names)
+	shared := map[string]interface{}{"k": 1.0, "arr": []interface{}{1.0}}
+	props := core.StepProps{"p": map[string]interface{}{"nested": []interface{}{1.0, 2.0}}, "q": "s",
+		"s1": shared, "s2": shared, "lst": []interface{}{shared, shared}}
 	ctl := &core.Control{Limit: c.Limit}
 	if c.Break.Kind == "node" || c.Break.Kind == "binding" {
 		ctl = c.control()
